@@ -28,6 +28,17 @@ class Packed:
         self.child = np.zeros(tuple(shape) + (2,), dtype="int8") if child is None else child
 
 
+_TPAIR = []
+
+
+def typed_pair():
+    """one typing.NamedTuple class whose fields are array annotations"""
+    if not _TPAIR:
+        import numpy as np, jaxtyping
+        _TPAIR.append(typing.NamedTuple("TPair", [("x", jaxtyping.Float[np.ndarray, "a"]), ("y", jaxtyping.Float[np.ndarray, "a b"])]))
+    return _TPAIR[0]
+
+
 def build_value(t):
     import numpy as np
     k = t[0]
@@ -40,7 +51,8 @@ def build_value(t):
     if k == "n":
         return None
     if k == "N":
-        return NT[t[1]](*[build_value(c) for c in t[2]])
+        cls = typed_pair() if t[1] == "TPair" else NT[t[1]]
+        return cls(*[build_value(c) for c in t[2]])
     if k == "C":
         return Custom(*[build_value(c) for c in t[1]])
     if k == "i":
@@ -69,6 +81,8 @@ def build_leaf(l):
         return typing.Any
     if l == "pytree":
         return PyTree
+    if l == "tpair":
+        return typed_pair()
     k = l[0]
     if k == "tuple":
         return tuple[tuple(build_leaf(x) for x in l[1])] if l[1] else tuple[()]
